@@ -641,7 +641,7 @@ static void lp_err (
 
 	EGLPNUM_TYPENAME_ILLread_lp_state_skip_blanks (state, 0);
 	at = state->p - state->line;
-	vsprintf (error_desc, format, args);
+	vsnprintf (error_desc, sizeof (error_desc) - 1, format, args);
 	slen = strlen (error_desc);
 	if ((slen > 0) && error_desc[slen - 1] != '\n')
 	{
